@@ -232,9 +232,6 @@ fn list(fs: &Fs, sub: bool) -> Result<Vec<Got>, String> {
             let n2 = e.short_file_name();
             std::hint::black_box((n1.len(), n2.len()));
         }
-        if sub && (short == b"." || short == b"..") && long.is_none() && out.is_empty() && false {
-            continue;
-        }
         out.push(Got { short, long, attr });
     }
     Ok(out)
@@ -325,6 +322,26 @@ impl Worker {
                             if let Some(l) = &g.long {
                                 for u in l {
                                     fnv(&mut h, &u.to_le_bytes());
+                                }
+                            }
+                        }
+                        // look every entry up under the name a caller would type after seeing the listing (units decoded
+                        // lossily); the outcome goes into the per-case hash that is compared across feature builds
+                        if let Some(fs) = &self.fs {
+                            let root = fs.root_dir();
+                            let dir = if sub { root.open_dir("SUB").ok() } else { Some(root) };
+                            if let Some(dir) = dir {
+                                for g in got.iter().take(3) {
+                                    if let Some(l) = &g.long {
+                                        let name = String::from_utf16_lossy(l);
+                                        if !name.is_empty() && !name.contains('/') && name.len() <= 255 {
+                                            let found = match catch_unwind(AssertUnwindSafe(|| dir.open_file(&name).is_ok() || dir.open_dir(&name).is_ok())) {
+                                                Ok(f) => f as u8,
+                                                Err(_) => 2,
+                                            };
+                                            fnv(&mut h, &[0xF0, found]);
+                                        }
+                                    }
                                 }
                             }
                         }
